@@ -16,7 +16,7 @@ import (
 // C11 — rebalance converges to the latest assignment, once, without stopping the client.
 
 func c11Spec(rng *rand.Rand, i int) (*SessSpec, string) {
-	placements := []string{"under-flood", "during-BRS-put", "rm-waiting", "single", "during-close-put", "during-close-get", "during-delay", "while-reopening", "right-after", "repeat", "oscillation", "api-burst", "three-sources"}
+	placements := []string{"under-flood", "during-BRS-put", "rm-waiting", "single", "during-close-put", "during-close-get", "during-delay", "while-reopening", "right-after", "repeat", "oscillation", "api-burst", "three-sources", "late-waiter"}
 	pl := placements[i%len(placements)]
 	sp := &SessSpec{NumVB: 4 + rng.Intn(5), Nodes: 1, AckSeed: rng.Int63(), Backend: []string{"mem", "cb", "file"}[rng.Intn(3)], Backlog: map[int][][]ItemSpec{}, Auto: rng.Intn(2) == 0, IntervalMs: 4}
 	sp.Membership = []string{"dynamic", "kubernetesHa", "kubernetesHa"}[rng.Intn(3)]
@@ -118,6 +118,16 @@ func c11Spec(rng *rand.Rand, i int) (*SessSpec, string) {
 		cur = [2]int{-1, -1}
 	case "api-burst":
 		sp.Steps = append(sp.Steps, get(false), Step{Op: "sleep", Ms: d / 4}, put(false), Step{Op: "sleep", Ms: d / 4}, put(false))
+	case "late-waiter":
+		// the goroutine that waits for the stream-finished signal of the open being closed is descheduled between
+		// receiving the signal and looking at the rebalance flag (injected delay at hook point wait.signal):
+		// with an immediate reopen (dynamic membership) the rebalance is over when it continues
+		sp.Membership = "dynamic"
+		sp.HookDelayMs = map[string]int{"wait.signal": 150 + 50*(i%3)}
+		sp.Steps = append(sp.Steps, put(false), Step{Op: "waitcycles", N: 1, Ms: 5000}, Step{Op: "sleep", Ms: 400})
+		if i%2 == 0 {
+			sp.Steps = append(sp.Steps, put(false), Step{Op: "waitcycles", N: 2, Ms: 5000}, Step{Op: "sleep", Ms: 400})
+		}
 	case "three-sources":
 		// bus, API and the re-armed timer: a notification while reopening re-arms the timer; others arrive around it
 		sp.Steps = append(sp.Steps, Step{Op: "holdeh", Sel: "BRE"}, put(false), Step{Op: "waitheld", Sel: "BRE"}, put(false), Step{Op: "releaseeh"}, Step{Op: "waiteh", Sel: "ARE", N: (i % 2) + 1}, get(true), put(true))
